@@ -6,10 +6,11 @@ import json, os, glob
 H = os.path.dirname(os.path.dirname(os.path.abspath(__file__)))
 props = [json.loads(l)["id"] for l in open(os.path.join(H, "properties.jsonl"))]
 nc = json.load(open(os.path.join(H, "tools", "not_claimed.json")))
+claimed = set(json.load(open(os.path.join(H, "tools", "claimed.json"))))
 checks, na = [], []
 for pid in props:
     p = os.path.join(H, "targets", pid + ".json")
-    if os.path.exists(p) and not json.load(open(p)).get("unclaimed"):
+    if pid in claimed and os.path.exists(p):
         s = json.load(open(p))
         m = s.get("manifest", {})
         tiers = sorted({t.get("tier", s.get("common", {}).get("tier", "A")) for t in s["targets"]})
